@@ -31,10 +31,13 @@ func aggTypes() []aggType {
 		{"nested struct", "type I@G@ struct{ p, q int32 }\ntype A@G@ struct {\n\ti I@G@\n\tn int32\n\tj I@G@\n}\n", "A@G@", "A@G@{I@G@{1, 2}, 3, I@G@{4, 5}}", "A@G@{I@G@{1, 2}, 3, I@G@{4, 6}}", []string{".i.p", ".j.q"}, "int64(%s.i.p)*10000 + int64(%[1]s.i.q)*1000 + int64(%[1]s.n)*100 + int64(%[1]s.j.p)*10 + int64(%[1]s.j.q)"},
 		{"struct with string and bool", "type A@G@ struct {\n\ta int32\n\ts string\n\tb bool\n\tc int32\n}\n", "A@G@", "A@G@{1, \"s\", true, 2}", "A@G@{1, \"t\", true, 2}", []string{".a", ".c"}, "int64(%s.a)*100 + int64(%[1]s.c)*10 + int64(len(%[1]s.s))"},
 		{"struct of mixed widths", "type A@G@ struct {\n\ta uint8\n\tb int64\n\tc uint16\n\td int32\n\te uint8\n}\n", "A@G@", "A@G@{1, 2, 3, 4, 5}", "A@G@{1, 2, 3, 4, 6}", []string{".d", ".d"}, "int64(%s.a)*10000 + %[1]s.b*1000 + int64(%[1]s.c)*100 + int64(%[1]s.d)*10 + int64(%[1]s.e)"},
-		{"array of int32", "", "[3]int32", "[3]int32{1, 2, 3}", "[3]int32{1, 2, 4}", []string{"[0]", "[2]"}, "int64(%s[0])*100 + int64(%[1]s[1])*10 + int64(%[1]s[2])"},
-		{"array of structs", "type I@G@ struct{ p, q int32 }\n", "[2]I@G@", "[2]I@G@{{1, 2}, {3, 4}}", "[2]I@G@{{1, 2}, {3, 5}}", []string{"[0].p", "[1].q"}, "int64(%s[0].p)*1000 + int64(%[1]s[0].q)*100 + int64(%[1]s[1].p)*10 + int64(%[1]s[1].q)"},
-		{"struct with array", "type A@G@ struct {\n\tn int32\n\tv [2]int32\n}\n", "A@G@", "A@G@{1, [2]int32{2, 3}}", "A@G@{1, [2]int32{2, 4}}", []string{".n", ".v[1]"}, "int64(%s.n)*100 + int64(%[1]s.v[0])*10 + int64(%[1]s.v[1])"},
-		{"array of arrays", "", "[2][2]int32", "[2][2]int32{{1, 2}, {3, 4}}", "[2][2]int32{{1, 2}, {3, 5}}", []string{"[0][0]", "[1][1]"}, "int64(%s[0][0])*1000 + int64(%[1]s[0][1])*100 + int64(%[1]s[1][0])*10 + int64(%[1]s[1][1])"},
+		// array types are given a name: the WaGo parser takes `v [3]int32` in a parameter list or field
+		// list for a generic instantiation (see value|declared with unnamed array or slice type), and
+		// one front-end defect should not take down every class below
+		{"array of int32", "type A@G@ [3]int32\n", "A@G@", "A@G@{1, 2, 3}", "A@G@{1, 2, 4}", []string{"[0]", "[2]"}, "int64(%s[0])*100 + int64(%[1]s[1])*10 + int64(%[1]s[2])"},
+		{"array of structs", "type I@G@ struct{ p, q int32 }\ntype A@G@ [2]I@G@\n", "A@G@", "A@G@{{1, 2}, {3, 4}}", "A@G@{{1, 2}, {3, 5}}", []string{"[0].p", "[1].q"}, "int64(%s[0].p)*1000 + int64(%[1]s[0].q)*100 + int64(%[1]s[1].p)*10 + int64(%[1]s[1].q)"},
+		{"struct with array", "type V@G@ [2]int32\ntype A@G@ struct {\n\tn int32\n\tv V@G@\n}\n", "A@G@", "A@G@{1, V@G@{2, 3}}", "A@G@{1, V@G@{2, 4}}", []string{".n", ".v[1]"}, "int64(%s.n)*100 + int64(%[1]s.v[0])*10 + int64(%[1]s.v[1])"},
+		{"array of arrays", "type R@G@ [2]int32\ntype A@G@ [2]R@G@\n", "A@G@", "A@G@{{1, 2}, {3, 4}}", "A@G@{{1, 2}, {3, 5}}", []string{"[0][0]", "[1][1]"}, "int64(%s[0][0])*1000 + int64(%[1]s[0][1])*100 + int64(%[1]s[1][0])*10 + int64(%[1]s[1][1])"},
 	}
 }
 
@@ -76,12 +79,16 @@ func FamDataValue(thorough bool) Family {
 	// composite literal forms and zero values
 	add("value|literal|field names, nesting, zero fields", "type L@G@ struct {\n\ta, b int32\n\ts    string\n\tin   struct{ u, v int32 }\n\tp    *L@G@\n}\n",
 		"\t\tx := L@G@{b: 2, s: \"s\"}\n\t\tprintln(x.a, x.b, x.s, x.in.u, x.p == nil)\n\t\ty := L@G@{a: 1, p: &L@G@{a: 7}}\n\t\ty.in.v = 5\n\t\tprintln(y.a, y.p.a, y.in.v, y.p.p == nil)\n\t\tz := &L@G@{}\n\t\tz.p = z\n\t\tz.p.p.a = 3\n\t\tprintln(z.a)\n\t\tarr := [...]int32{5, 6, 7}\n\t\tidx := [4]int32{2: 9}\n\t\tprintln(len(arr), arr[2], idx[1], idx[2], len(idx))")
-	add("value|zero values|all kinds", "type Z@G@ struct {\n\ti  int32\n\tu  uint64\n\tf  float64\n\tb  bool\n\ts  string\n\tp  *int32\n\tsl []int32\n\tm  map[int32]int32\n\tfn func()\n\te  interface{}\n\ta  [2]int32\n}\n",
+	add("value|zero values|all kinds", "type ZS@G@ []int32\ntype ZA@G@ [2]int32\ntype Z@G@ struct {\n\ti  int32\n\tu  uint64\n\tf  float64\n\tb  bool\n\ts  string\n\tp  *int32\n\tsl ZS@G@\n\tm  map[int32]int32\n\tfn func()\n\te  interface{}\n\ta  ZA@G@\n}\n",
 		"\t\tvar z Z@G@\n\t\tprintln(z.i, z.u, z.f == 0, z.b, z.s == \"\", z.p == nil, z.sl == nil, z.m == nil, z.fn == nil, z.e == nil, z.a[1])\n\t\tvar arr [3]Z@G@\n\t\tprintln(arr[2].i, arr[2].s == \"\", len(arr[1].sl))\n\t\tp := new(Z@G@)\n\t\tprintln(p.u, p.e == nil)")
 	add("value|anonymous struct|identical types assignable", "", "\t\ta := struct{ x, y int32 }{1, 2}\n\t\tvar b struct{ x, y int32 }\n\t\tb = a\n\t\tb.x = 5\n\t\tprintln(a.x, b.x, a == b)")
 	add("value|array|len, index by variable, multi-dimensional", "", "\t\tvar g [3][4]int32\n\t\tfor i := 0; i < 3; i++ {\n\t\t\tfor j := 0; j < 4; j++ {\n\t\t\t\tg[i][j] = int32(i*10 + j)\n\t\t\t}\n\t\t}\n\t\trow := g[1]\n\t\trow[2] = 99\n\t\tprintln(len(g), len(g[0]), g[1][2], row[2], g[2][3])\n\t\tp := &g[2]\n\t\tp[0] = 55\n\t\tprintln(g[2][0], len(p))")
 	add("value|pointer|to local escaping, pointer to pointer", "func esc@G@(v int32) *int32 {\n\tx := v * 2\n\treturn &x\n}\n", "\t\tp, q := esc@G@(1), esc@G@(2)\n\t\t*p += 10\n\t\tprintln(*p, *q, p == q)\n\t\tpp := &p\n\t\t*pp = q\n\t\t**pp = 7\n\t\tprintln(*p, *q, p == q)")
-	add("value|struct containing slice and map shares them", "type S@G@ struct {\n\ts []int32\n\tm map[int32]int32\n\tn int32\n}\n", "\t\tx := S@G@{[]int32{1, 2}, map[int32]int32{}, 3}\n\t\ty := x\n\t\ty.s[0] = 9\n\t\ty.m[1] = 1\n\t\ty.n = 4\n\t\ty.s = append(y.s, 5)\n\t\tprintln(x.s[0], len(x.s), len(x.m), x.n, len(y.s))")
+	add("value|struct containing slice and map shares them", "type SS@G@ []int32\ntype S@G@ struct {\n\ts SS@G@\n\tm map[int32]int32\n\tn int32\n}\n", "\t\tx := S@G@{[]int32{1, 2}, map[int32]int32{}, 3}\n\t\ty := x\n\t\ty.s[0] = 9\n\t\ty.m[1] = 1\n\t\ty.n = 4\n\t\ty.s = append(y.s, 5)\n\t\tprintln(x.s[0], len(x.s), len(x.m), x.n, len(y.s))")
+
+	add("value|declared with unnamed array or slice type|struct field", "type FA@G@ struct {\n\tn int32\n\tv [2]int32\n\ts []int32\n}\n", "\t\tx := FA@G@{1, [2]int32{2, 3}, nil}\n\t\ty := x\n\t\ty.v[0] = 9\n\t\tprintln(x.v[0], y.v[0], len(x.s))")
+	add("value|declared with unnamed array or slice type|parameter", "func fa@G@(v [2]int32) int32 {\n\tv[0] = 9\n\treturn v[0] + v[1]\n}\n", "\t\tx := [2]int32{1, 2}\n\t\tprintln(fa@G@(x), x[0])")
+	add("value|declared with unnamed array or slice type|local, result, map, element", "func ra@G@() [2]int32 { return [2]int32{1, 2} }\n", "\t\tvar a [2]int32\n\t\tb := ra@G@()\n\t\ta = b\n\t\ta[0] = 5\n\t\tm := map[[2]int32][]int32{a: {1}}\n\t\tg := [][2]int32{a, b}\n\t\tprintln(a[0], b[0], len(m[a]), len(m[b]), g[1][1], a == b, a != b)")
 
 	// embedding
 	emb := `type B@G@ struct{ x, y int32 }
